@@ -67,12 +67,9 @@ kf = ["# (iii) \\DDD in a quoted string is decoded as (d1<<16)+(d2<<8)+d3 -> cla
       case("m", O, 'a\\;b 60 IN A 1.2.3.4\n', recs=[rec(nameb([b"a;b", b"example", b"com"]), 1, 60, A("1.2.3.4"))]),
       case("m", O, 'x 60 IN NS a\\;b\n', recs=[rec(name("x.example.com"), 2, 60, "N," + nameb([b"a;b", b"example", b"com"]))]),
       ]
-kf += ["# (vi) a lower-case mnemonic reaches RecordType/DNSClass::from_str's debug_assert without being upper-cased: the CSYNC type list and the",
-       "#      trust-anchor parser's class / type (panics in builds with debug assertions; an error / wrong branch otherwise) -> class mnemonic-case-debug-assert",
-       case("m", O, "a 60 CSYNC 66 3 a\n"), case("m", O, "a 60 CSYNC 0 0 A ns\n"),
-       "tanchor " + hx(b". in DNSKEY 257 3 8 QQ==\n"), "tanchor " + hx(b". 172800 IN dnskey 257 3 8 QQ==\n"), "tanchor " + hx(b". 1h IN DNSKEY 257 3 8 QQ==\n"),
-       "# (vii) Parser::new(text, Some(path), ..) with a path that has no parent and a relative $INCLUDE: expect(\"file has to have parent folder\") -> class include-path-without-parent",
-       f"zonep {hx(b'/')} {name(O)} {hx(b'$INCLUDE x' + bytes([10]))}", f"zonep - {name(O)} {hx(b'$INCLUDE x' + bytes([10]))}"]
+kf += ["# (vi) a $ORIGIN inside an included file stays in force in the parent after the include (RFC 1035 5.1: it must not) -> class include-origin-leaks",
+       "zoneinc " + name(O) + " " + hx(b"$INCLUDE b.zone" + bytes([10]) + b"x 60 A 1.2.3.4" + bytes([10])) + " b.zone:" + hx(b"$ORIGIN other." + bytes([10]) + b"y 60 A 5.6.7.8" + bytes([10]))
+       + " " + name(O) + " " + rec(name("x.example.com"), 1, 60, A("1.2.3.4")) + "|" + rec(name("y.other"), 1, 60, A("5.6.7.8"))]
 files["known-findings.case"] = kf
 
 # ---- layouts that must load (RFC 1035 §5.3 example, with a $TTL because RFC 2308 removed the SOA-minimum default)
@@ -245,13 +242,13 @@ ps = [
  "# rr/record_type.rs:216  debug_assert!(no ASCII lower-case letter) in RecordType::from_str",
  "#   zone.rs TtlClassType: unreachable — the token is upper-cased first (make_ascii_uppercase); non-ASCII lower case is not 'ascii lowercase'",
  case("m", O, "a 60 in a 1.2.3.4\nb 60 In tXt x\nc 60 \u00e9 x\n"),
- "#   CSYNC::from_tokens (type list, not upper-cased): REACHABLE -> panics in builds with debug assertions  [open finding mnemonic-case-debug-assert]",
+ "#   CSYNC::from_tokens (type list, not upper-cased): was REACHABLE (panic in builds with debug assertions) — fixed by aeb765a: upper-cased first",
  case("m", O, "a 60 CSYNC 66 3 A NS AAAA\n"),
- "#   trust_anchor::Parser (State::Type, not upper-cased): REACHABLE -> same finding (see the tanchor lines in known-findings.case)",
+ "#   trust_anchor::Parser (State::Type, not upper-cased): was REACHABLE — fixed by aeb765a",
  ta(f". 172800 IN DNSKEY 257 3 8 {KEY}\n"), ta(f"example.com. IN DNSKEY 257 3 8 {KEY}\n"), ta(f"example.com. 1h CH DNSKEY 256 3 13 {KEY}\n"),
  ta("example.com. 60 IN A 1.2.3.4\n"), ta(". 1 IN DNSKEY 257 2 8 QQ==\n"), ta(". 1 IN DNSKEY 257 3 8\n"), ta(". 1 IN DNSKEY 257 3 8 Q\n"), ta(". 1 IN DNSKEY 65536 3 8 QQ==\n"), ta(". ( 1 IN DNSKEY )\n"), ta(". 1 IN"), ta("\"\n"),
  "# rr/dns_class.rs:59  the same debug_assert in DNSClass::from_str",
- "#   zone.rs: unreachable (upper-cased first).  trust_anchor::Parser State::Ttl (tries the class BEFORE upper-casing): REACHABLE with a lower-case class or a TTL with a unit letter -> same finding",
+ "#   zone.rs: unreachable (upper-cased first).  trust_anchor::Parser State::Ttl (tries the class BEFORE upper-casing): was REACHABLE with a lower-case class or a TTL with a unit letter — fixed by aeb765a",
  "# rr/rdata/svcb.rs:233  &value[1..value.len()-1]  — guarded by len >= 2 since 31a6507; both quotes are ASCII so the indices are char boundaries",
  ] + [case("m", O, t) for t in ['a 60 HTTPS 1 . alpn="\n', 'a 60 HTTPS 1 . alpn=""\n', 'a 60 HTTPS 1 . alpn="h2"\n', 'a 60 HTTPS 1 . alpn="\u00e9"\n', 'a 60 HTTPS 1 . key1="\u00e9\n', 'a 60 SVCB 1 . key1=\u00e9"\n', 'a 60 SVCB 1 . ="\n', 'a 60 SVCB 1 . "="\n']] + [
  "# rr/rdata/svcb.rs parse_char_data / parse_list (inner Lexer on a value): lexer errors are propagated since 0119207; escapes, commas, quotes",
@@ -269,7 +266,7 @@ ps = [
  "# serialize/txt/zone_lex.rs escape_seq: (d1<<16)+(d2<<8)+d3 <= 0x90909, never a surrogate -> char::from_u32 cannot fail; to_digit(10) on a non-ASCII 'numeric' character is an error",
  ] + [case("m", O, t) for t in ['a 60 TXT "\\999"\n', 'a 60 TXT "\\\u00b2"\n', 'a 60 TXT "\\1\u0663"\n', 'a 60 TXT "\\12"\n']] + [
  "# serialize/txt/zone.rs:234  path.parent().expect(\"file has to have parent folder\")  — unreachable with path = None (the observed entry point: a relative $INCLUDE is an error);",
- "#   REACHABLE through Parser::new(text, Some(path), ..) when path has no parent (\"\" or \"/\")  [open finding include-path-without-parent]",
+ "#   was REACHABLE through Parser::new(text, Some(path), ..) when path has no parent (\"\" or \"/\") — fixed by aa3be61 (a parse error now)",
  case("m", O, "$INCLUDE x\n"), zp("/nonexistent-c20/zone", O, "$INCLUDE x\n"), zp("/nonexistent-c20/zone", O, "a 60 A 1.2.3.4\n"),
  "# rr/rr_set.rs:279,280,353 assert!s of RecordSet::insert — unreachable: theorem no_panic (the map key is (lower(name), type); CNAME/ANAME sets stay singletons)",
  case("m", O, "a 60 CNAME x\nA 60 CNAME y\na 60 ANAME x\na 60 ANAME y\n"),
@@ -283,7 +280,39 @@ ps = [
  "# integer parsing / arithmetic: u8/u16/u32 FromStr, checked_mul/checked_add in parse_ttl, try_into for SOA's i32 fields, flag masks in CAA/CSYNC — no unchecked arithmetic on parsed values",
  ] + [case("m", O, t) for t in ['a 60 CAA 256 issue x\n', 'a 60 CAA -1 issue x\n', 'a 60 CSYNC 4294967296 0\n', 'a 60 CSYNC 1 65536\n', 'a 60 NAPTR 65536 1 U s r .\n', 'a 60 NAPTR 1 1 U! s r .\n', 'a 60 NAPTR 1 1 "" "" "" .\n', 'a 60 SOA a b 4294967296 2 3 4 5\n', 'a 60 SOA a b 1 2147483648 3 4 5\n',
       'a 60 SRV 65536 1 1 .\n', 'a 60 MX 65536 .\n', 'a 60 TLSA 256 1 1 aa\n', 'a 60 CERT 65536 1 1 QQ==\n', 'a 4294967296 A 1.2.3.4\n', 'a 60 A 1.2.3.256\n', 'a 60 AAAA 1:2:3:4:5:6:7:8:9\n', 'a 60 AAAA ' + '1' * 300 + '\n']]
+ps += ["# regressions of the two findings of the site review (fixed: aeb765a mnemonic case, aa3be61 $INCLUDE parent): must not panic",
+       case("m", O, "a 60 CSYNC 66 3 a\n"), case("m", O, "a 60 CSYNC 0 0 A ns\n"), case("m", O, "a 60 IN CSYNC 0 \"0\"alpn=\"\n"),
+       ta(". in DNSKEY 257 3 8 QQ==\n"), ta(". 172800 IN dnskey 257 3 8 QQ==\n"), ta(". 1h IN DNSKEY 257 3 8 QQ==\n"), ta("\"\"example.com. 172800 IN DNSKEY 257 3 8 QQ==\n"),
+       zp("/", O, "$INCLUDE x\n"), f"zonep - {name(O)} {hx(b'$INCLUDE x' + bytes([10]))}"]
 files["panic-sites.case"] = ps
+
+# ---- $INCLUDE (zone.rs include branch, nesting limit), the server's file loader, RData::try_from_str, parse_ttl overflow branches
+def zi(origin, main, incs, exp_origin=None, recs=None, musterr=False):
+    fl = ",".join(f"{n}:{hx(t.encode())}" for n, t in incs) or "-"
+    l = f"zoneinc {name(origin)} {hx(main.encode())} {fl}"
+    if musterr: return l + f" {name(origin)} !"
+    if recs is not None: l += f" {name(exp_origin or origin)} " + "|".join(recs)
+    return l
+def zf(origin, text): return f"zonefile {name(origin)} {hx(text.encode())}"
+def rd(ty, text): return f"rdata {ty} {hx(text.encode())}"
+XA = lambda n, ip: rec(name(n), 1, 60, A(ip))
+inc = ["# $INCLUDE inserts the named file; relative names in it and after it use the parent's origin",
+       zi(O, "a 60 A 1.1.1.1\n$INCLUDE b.zone\nc 60 A 3.3.3.3\n", [("b.zone", "b 60 A 2.2.2.2\n")], recs=[XA("a.example.com", "1.1.1.1"), XA("b.example.com", "2.2.2.2"), XA("c.example.com", "3.3.3.3")]),
+       zi(O, "$INCLUDE b.zone ; comment\n", [("b.zone", "b 60 A 2.2.2.2\n$INCLUDE c.zone\n"), ("c.zone", "c 60 A 3.3.3.3")], recs=[XA("b.example.com", "2.2.2.2"), XA("c.example.com", "3.3.3.3")]),
+       zi(O, "$INCLUDE b.zone\n$INCLUDE b.zone\n", [("b.zone", "b 60 A 2.2.2.2\n")], recs=[XA("b.example.com", "2.2.2.2")]),
+       zi(O, "$INCLUDE b.zone", [("b.zone", "b 60 A 2.2.2.2")]), zi(O, "$INCLUDE b.zone x.\n", [("b.zone", "b 60 A 2.2.2.2\n")]), zi(O, "$INCLUDE nofile.zone\n", []), zi(O, "$INCLUDE\n", []), zi(O, "$INCLUDE b.zone\n", [("b.zone", "b 60 A (")]),
+       "# nesting without end: the file includes itself / a cycle / a chain beyond the limit of 256 -> an error, not a hang or a stack overflow",
+       zi(O, "x 60 A 1.2.3.4\n$INCLUDE main.zone\n", [], musterr=True), zi(O, "$INCLUDE b.zone\n", [("b.zone", "$INCLUDE main.zone\n")], musterr=True),
+       "# the server's file loader: SOA at the origin, class IN; a missing SOA, class CH, CNAME next to other data are refused by the store",
+       zf(O, "@ 3600 SOA ns adm 1 2 3 4 5\n@ 60 NS ns\nns 60 A 1.2.3.4\nwww 60 CNAME ns\n"), zf(O, "ns 60 A 1.2.3.4\n"), zf(O, "@ 3600 SOA ns adm 1 2 3 4 5\nx 60 CH A 1.2.3.4\n"),
+       zf(O, "@ 3600 SOA ns adm 1 2 3 4 5\nx 60 CNAME y\nx 60 A 1.2.3.4\n"), zf(O, "@ 3600 SOA ns adm 1 2 3 4 5\nx 60 A (\n"), zf(O, "$ORIGIN other.\n@ 3600 SOA ns adm 1 2 3 4 5\n"), zf(O, ""),
+       zf(O, "@ 3600 SOA ns adm 1 2 3 4 5\nout.side. 60 A 1.2.3.4\nx 60 A 1.1.1.1\nX 70 A 1.1.1.1\n"),
+       "# RData::try_from_str: the lexer and from_tokens without the line machine",
+       rd("A", "1.2.3.4"), rd("A", "( 1.2.3.4 ) ; c\n"), rd("TXT", '"a b" c'), rd("MX", "10 mail"), rd("SOA", "a. b. 1 2 3 4 5"), rd("TLSA", "3 1 1 a1b 2c3 d4"), rd("CERT", "1 2 3 QUJD REVG"), rd("HTTPS", '1 . alpn="'),
+       rd("A", "@"), rd("A", "$TTL"), rd("A", "$FOO"), rd("A", '"'), rd("A", ""), rd("NULL", "\\# 0"), rd("CSYNC", "1 0 a ns"), rd("AAAA", "::1 extra"), rd("TXT", "( a"),
+       "# parse_ttl: every overflow branch (number with a unit, product, sum inside the loop, sum at the end)",
+       ] + [case("m", O, f"a {t} A 1.2.3.4\n") for t in ["4294967295", "4294967296", "7101w", "7102w", "4294967296s", "49710d6h28m15s", "49710d6h28m16s", "4294967295s1", "4294967294s1", "1w4294362495", "1w4294362496", "99999999999w", "4294967295w0", "0w", "1h1", "s1", "1ww"]]
+files["entry-points.case"] = inc
 
 for fn, lines in files.items():
     with open(os.path.join(HERE, fn), "w") as f:
